@@ -129,6 +129,7 @@ inline void run_keysig(long &kc) {
 			if (st.reached) {
 				{ Layout LS = walk(sigpkt);
 				  sweep(kind, "sig", sigpkt, LS, sig_judged, p.sem, [&](const Oct &t) { Acc A; SigRes q = lib_check(t, vkey, T, vkeyct); A.accepted = q.parsed && q.crypto; A.sem = q.sem; return A; }, r, cj, st); }
+				unhashed_injection(kind, sigpkt, vkey, T, vkeyct, sigtime, p.sem, cj, st);
 				for (auto &sp : parts) {
 					Layout LP = walk(sp.pkt);
 					Oct body0; PGP::PacketBodyExtract(sp.pkt, 0, body0);
